@@ -35,7 +35,7 @@ PROFILES = {
     'instances': dict(batch=1, submit=5, instance=4, activate=4, deactivate=4, mark_deleted=2, schedule=8, schedule_any=2, creating=5, jp_schedule=4,
                       started=5, started_fresh=2, complete=8, unschedule=4, sched_loop=3, cancel_running=2, cancel_orphans=2, cancel=3, cancel_creating=3, cancel_creating_crash=1, cancel_ready=1,
                       tick=1),
-    'uncommitted': dict(batch=1, submit=4, late_child=2, update=6, groups=4, jobs=7, commit=3, cancel=3, instance=1, schedule=6, complete=9,
+    'uncommitted': dict(batch=1, submit=4, late_child=2, update=6, groups=4, jobs=7, commit=3, cancel=5, instance=1, schedule=6, complete=9,
                         sched_loop=6, cancel_ready=3, cancel_running=1, cleanup_staging=1, tick=1),
 }
 
@@ -141,7 +141,8 @@ def strategies(profile, max_ops=40):
     op = st.one_of(*([seq_op] * (12 - PAR.get(profile, 1)) + [par_op] * PAR.get(profile, 1)))
     prefix = [['instance', 0, True], ['batch', 0, 0]]
     cfg = st.fixed_dictionaries({'n_tokens': st.sampled_from([1, 2, 5]), 'draws': st.lists(st.integers(0, 15), min_size=1, max_size=8)})
-    first = st.tuples(st.sampled_from(['submit', 'submit', 'update']), st.just(0), groups, jobs).map(list)
+    first = st.tuples(st.sampled_from(['submit', 'update', 'update'] if profile == 'uncommitted' else ['submit', 'submit', 'update']),
+                      st.just(0), groups, jobs).map(list)
     free = st.builds(lambda c, f, ops: {'cfg': c, 'ops': prefix + [f] + ops}, cfg, first, st.lists(op, min_size=8, max_size=max_ops))
     if not CHAINS.get(profile):
         return free
